@@ -7,6 +7,7 @@ import (
 	"strings"
 
 	mxj "github.com/clbanning/mxj/v2"
+	"github.com/clbanning/mxj/v2/j2x"
 	rt "github.com/clbanning/mxj/v2/zzverifrt"
 )
 
@@ -200,6 +201,30 @@ func c09Check(c *Ctx, m map[string]interface{}, prefix string, noattr, dot bool)
 	if !eqStrings(sortedCopy(evs), sortedCopy(gv)) {
 		c.Violate("Map.LeafValues", "projection", shape, cas, nil, fmt.Sprintf("map=%s prefix=%q noattr=%v\n LeafNodes values=%v\n LeafValues      =%v", jsonOf(m), prefix, noattr, sortedCopy(evs), sortedCopy(gv)))
 	}
+	// the j2x wrappers are LeafNodes / LeafPaths / LeafValues of the decoded JSON document (all entries kept)
+	if !noattr {
+		js := []byte(jsonOf(m))
+		var jn []mxj.LeafNode
+		var jp []string
+		var jv []interface{}
+		var e1, e2, e3 error
+		st, pan := protect(func() {
+			jn, e1 = j2x.JsonLeafNodes(js)
+			jp, e2 = j2x.JsonLeafPath(js)
+			jv, e3 = j2x.JsonLeafValues(js)
+		})
+		c.S.Transitions += 3
+		var jg, jvs []string
+		for _, l := range jn {
+			jg = append(jg, enc(l.Path, l.Value))
+		}
+		for _, v := range jv {
+			jvs = append(jvs, dump(v))
+		}
+		if pan || e1 != nil || e2 != nil || e3 != nil || !eqStrings(sortedCopy(jg), sortedCopy(g)) || !eqStrings(sortedCopy(jp), sortedCopy(gp)) || !eqStrings(sortedCopy(jvs), sortedCopy(gv)) {
+			c.Violate("j2x.JsonLeafNodes", "wrapper-agrees", shape, cas, nil, fmt.Sprintf("map=%s prefix=%q\n Map.LeafNodes    =%v\n j2x.JsonLeafNodes=%v\n j2x.JsonLeafPath =%v\n j2x.JsonLeafValues=%v errs=%v %v %v %s", jsonOf(m), prefix, sortedCopy(g), sortedCopy(jg), sortedCopy(jp), sortedCopy(jvs), e1, e2, e3, st))
+		}
+	}
 	// resolution: bracket notation, all entries kept, path-safe keys, no list-in-list
 	if !dot && !noattr && shape == "plain" && !hasListInList(m) {
 		for _, l := range ln {
@@ -218,7 +243,7 @@ func c09Check(c *Ctx, m map[string]interface{}, prefix string, noattr, dot bool)
 
 func c09Run(c *Ctx) {
 	mustBeDefault(c)
-	c.S.Rule = "cases = (Map, attribute prefix, no-attributes, dot-notation): every Map template with <= N nodes over keys {a, y<prefix>z, <prefix>x, #text} (enumeration + resolution clauses) and over {a, \"\", a.b, <prefix>x} (enumeration clause with arbitrary keys incl. the empty key) and over {a, a], ' ', k:} (keys with a closing bracket, a blank-only key, default prefix), leaves incl. null, plus Maps decoded from the U-XML documents and a scale family (lists of 11, 101, 1025 scalars / maps); prefixes {-, @, \"\", attr_} (dot notation set explicitly for two of them and reached through the toggling form for the other two); explicit false and omitted no_attr argument alternate; each under ascending and descending map order; plus every sequence of <= 3 (notation switch in {bare toggle, explicit on, explicit off}, LeafNodes/LeafPaths/LeafValues on one of 4 Maps with lists of different lengths) steps in one process. Results are retained and re-checked after later calls. Oracle: reference leaf list (multiset of path=value), LeafPaths/LeafValues are projections, every leaf path resolves through ValuesForPath to exactly its value. non-trivial = at least one leaf."
+	c.S.Rule = "cases = (Map, attribute prefix, no-attributes, dot-notation): every Map template with <= N nodes over keys {a, y<prefix>z, <prefix>x, #text} (enumeration + resolution clauses) and over {a, \"\", a.b, <prefix>x} (enumeration clause with arbitrary keys incl. the empty key) and over {a, a], ' ', k:} (keys with a closing bracket, a blank-only key, default prefix), leaves incl. null, plus Maps decoded from the U-XML documents and a scale family (lists of 11, 101, 1025 scalars / maps); prefixes {-, @, \"\", attr_} (dot notation set explicitly for two of them and reached through the toggling form for the other two); explicit false and omitted no_attr argument alternate; each under ascending and descending map order; plus every sequence of <= 3 (notation switch in {bare toggle, explicit on, explicit off}, LeafNodes/LeafPaths/LeafValues on one of 4 Maps with lists of different lengths) steps in one process. Results are retained and re-checked after later calls. Oracle: reference leaf list (multiset of path=value), LeafPaths/LeafValues are projections, j2x.JsonLeafNodes / JsonLeafPath / JsonLeafValues of the Map's JSON text agree with them, every leaf path resolves through ValuesForPath to exactly its value. non-trivial = at least one leaf."
 	c.S.Assumptions = []string{"reference leaf enumeration in harness/c09.go", "resolution clause restricted as the property states (keys free of . [ *, no list-in-list, bracket notation)"}
 	n := 5
 	if c.Thorough {
@@ -230,6 +255,10 @@ func c09Run(c *Ctx) {
 			for fam := 0; fam < 3; fam++ {
 				// "y<prefix>z" contains the attribute prefix in a non-leading position: not an attribute
 				keys := []string{"a", "y" + prefix + "z", prefix + "x", "#text"}
+				if len(prefix) > 1 {
+					// an ordinary key that shares only the first byte of a longer prefix, and is longer than it
+					keys = append(keys, prefix[:1]+"zzzzzz")
+				}
 				if fam == 1 {
 					keys = []string{"a", "", "a.b", prefix + "x"}
 				}
